@@ -203,6 +203,9 @@ type Client struct {
 	// Transcript of raw bytes (bounded) for replay files.
 	Log      []string
 	LogLimit int
+	// Busy, when set, tells whether the server has been working since the previous call; a read
+	// watchdog that expires without a byte is re-armed while it says so (at most 6 periods).
+	Busy func() bool
 }
 
 func Dial(addr string, local net.Addr, watchdog time.Duration) (*Client, error) {
@@ -289,6 +292,7 @@ func (c *Client) ReadN(n int) ([]byte, ReadStatus) {
 func (c *Client) ReadNT(n int, wd time.Duration) ([]byte, ReadStatus) {
 	buf := make([]byte, n)
 	got := 0
+	start := time.Now()
 	for got < n {
 		c.C.SetReadDeadline(time.Now().Add(wd))
 		k, err := c.C.Read(buf[got:])
@@ -298,6 +302,9 @@ func (c *Client) ReadNT(n int, wd time.Duration) ([]byte, ReadStatus) {
 			if errors.Is(err, os.ErrDeadlineExceeded) {
 				if k > 0 {
 					continue // progress: re-arm the watchdog
+				}
+				if c.Busy != nil && time.Since(start) < 6*wd && c.Busy() {
+					continue // the server is working (CPU time advancing): not a verdict yet
 				}
 				c.logf("< %d/%d bytes then TIMEOUT %x", got, n, trunc(buf[:got], 48))
 				return buf[:got], Timeout
@@ -314,6 +321,7 @@ func (c *Client) ReadNT(n int, wd time.Duration) ([]byte, ReadStatus) {
 func (c *Client) ExpectEOF() ([]byte, ReadStatus) {
 	var stray []byte
 	buf := make([]byte, 4096)
+	eofStart := time.Now()
 	for {
 		c.C.SetReadDeadline(time.Now().Add(c.Watchdog))
 		k, err := c.C.Read(buf)
@@ -321,6 +329,9 @@ func (c *Client) ExpectEOF() ([]byte, ReadStatus) {
 		stray = append(stray, buf[:k]...)
 		if err != nil {
 			if errors.Is(err, os.ErrDeadlineExceeded) {
+				if c.Busy != nil && time.Since(eofStart) < 6*c.Watchdog && c.Busy() {
+					continue
+				}
 				c.logf("< expect-EOF: TIMEOUT after %d stray bytes", len(stray))
 				return stray, Timeout
 			}
